@@ -1,6 +1,10 @@
 /-
   Semantics of the user's blocks and of the generated helper-trait program on ground worlds
-  (DESIGN.md §6).  Trees at this level are lifetime-erased; substitutions bind type parameters only.
+  (DESIGN.md §6).  Trees at this level are lifetime-erased. Substitutions bind type parameters (`.ty`) and const
+  parameters (`.ex`); the substitution a block / the main impl is instantiated with is *well-kinded* for it (`wkB`,
+  `wkF`): it binds no expression to a parameter used in type position (a bare `tparam`; the generic-argument
+  position `GenericArgument::Type [tparam n]` is ambiguous — a bare const argument is printed like that — and
+  accepts both). Every substitution without const bindings (`noEx`) is well-kinded for everything.
 -/
 import DisjointImpls.Tree
 namespace DI
@@ -31,8 +35,34 @@ structure Block where
   sizedParams : List String
   deriving Repr, DecidableEq
 
-/-- no const bindings: substitutions at this level bind type parameters only -/
+/-- no const bindings -/
 def noEx (σ : Subst) : Prop := ∀ n e, lookup σ n ≠ some (.ex e)
+
+/-- `σ` does not bind `n` to an expression -/
+def nonEx (σ : Subst) (n : String) : Bool :=
+  match lookup σ n with
+  | some (.ex _) => false
+  | _ => true
+
+mutual
+/-- well-kinded for `t`: no parameter that `t` uses in type position (a bare `tparam`, not the ambiguous
+    generic-argument position) is bound to an expression -/
+def wkT (σ : Subst) : T → Bool
+  | .tparam n => nonEx σ n
+  | .eparam _ => true
+  | .node k as ks =>
+      match k, as, ks with
+      | "GenericArgument::Type", [], [.tparam _] => true
+      | _, _, _ => wkL σ ks
+def wkL (σ : Subst) : List T → Bool
+  | [] => true
+  | t :: ts => wkT σ t && wkL σ ts
+end
+
+/-- `ρ` is well-kinded for block `b`: for its header, the bounded types and traits of its bounds, and its
+    `Sized` parameters (which are type parameters) -/
+def wkB (ρ : Subst) (b : Block) : Bool :=
+  wkT ρ b.hdr && b.clauses.all (fun c => wkT ρ c.bounded && wkT ρ c.tr) && b.sizedParams.all (nonEx ρ)
 
 def holds (W : World) (ρ : Subst) (c : Clause) : Prop :=
   ∃ bs, W.disp (inst ρ c.tr) (inst ρ c.bounded) = some bs ∧ ∀ a p, (a, p) ∈ c.binds → assoc bs a = some (inst ρ p)
@@ -42,7 +72,7 @@ def sizedOK (W : World) (ρ : Subst) (ps : List String) : Prop :=
 
 /-- block `b` applies to the ground query `q` (trait arguments + self type) in world `W` -/
 def applies (W : World) (b : Block) (q : T) : Prop :=
-  ∃ ρ, noEx ρ ∧ inst ρ b.hdr = q ∧ (∀ c ∈ b.clauses, holds W ρ c) ∧ sizedOK W ρ b.sizedParams
+  ∃ ρ, wkB ρ b = true ∧ inst ρ b.hdr = q ∧ (∀ c ∈ b.clauses, holds W ρ c) ∧ sizedOK W ρ b.sizedParams
 
 /-- a dispatch key of a family: (bounded type, trait, associated type) over the family's parameters -/
 structure Key where
@@ -65,6 +95,10 @@ structure Family where
   members : List Member
   deriving Repr, DecidableEq
 
+/-- `τ` is well-kinded for the main impl of family `F`: for its header and its keys -/
+def wkF (τ : Subst) (F : Family) : Bool :=
+  wkT τ F.hdr && F.keys.all (fun k => wkT τ k.bounded && wkT τ k.tr)
+
 /-- the projection `<bounded as tr>::a` of key `k` under `τ` is defined in `W` and equals `g` -/
 def projOK (W : World) (τ : Subst) (k : Key) (g : T) : Prop :=
   ∃ bs, W.disp (inst τ k.tr) (inst τ k.bounded) = some bs ∧ assoc bs k.a = some g
@@ -76,7 +110,7 @@ def Key.via (k : Key) (θ : Subst) : Key := ⟨inst θ k.bounded, inst θ k.tr, 
     member's header, bounds and generics; its leading trait arguments are the member's row, a wildcard
     entry being printed as the projection of the key through the member's substitution -/
 def helperApplies (W : World) (F : Family) (m : Member) (q : T) (gs : List T) : Prop :=
-  ∃ ρ, noEx ρ ∧ inst ρ m.blk.hdr = q ∧ (∀ c ∈ m.blk.clauses, holds W ρ c) ∧ sizedOK W ρ m.blk.sizedParams ∧
+  ∃ ρ, wkB ρ m.blk = true ∧ inst ρ m.blk.hdr = q ∧ (∀ c ∈ m.blk.clauses, holds W ρ c) ∧ sizedOK W ρ m.blk.sizedParams ∧
     gs.length = F.keys.length ∧
     ∀ i (h : i < F.keys.length) (h1 : i < m.row.length) (h2 : i < gs.length),
       match m.row[i] with
@@ -86,7 +120,7 @@ def helperApplies (W : World) (F : Family) (m : Member) (q : T) (gs : List T) : 
 /-- the main impl of family `F` applies to `q` and its `Self: Helper<projections…>` predicate is
     discharged by the helper impl of member `m` -/
 def genSel (W : World) (F : Family) (m : Member) (q : T) : Prop :=
-  ∃ τ gs, noEx τ ∧ inst τ F.hdr = q ∧ sizedOK W τ F.sizedParams ∧ gs.length = F.keys.length ∧
+  ∃ τ gs, wkF τ F = true ∧ inst τ F.hdr = q ∧ sizedOK W τ F.sizedParams ∧ gs.length = F.keys.length ∧
     (∀ i (h : i < F.keys.length) (h2 : i < gs.length), projOK W τ F.keys[i] gs[i]) ∧
     helperApplies W F m q gs
 
@@ -126,11 +160,98 @@ where allParamsL : List T → List String
   | [] => []
   | t :: ts => allParams t ++ allParamsL ts
 
-/-- composition: first `θ` (family parameters ↦ terms over member parameters), then `ρ` -/
+/-- composition: first `θ` (family parameters ↦ terms over member parameters), then `ρ`. A family parameter that
+    `θ` sends to a member parameter which `ρ` binds to an expression is itself bound to that expression (the bare
+    const argument `Wr<N>`: `N` is printed as a type) -/
 def comp (θ ρ : Subst) : Subst :=
   θ.map (fun p => match p.2 with
+    | .ty (.tparam m) => (p.1, match lookup ρ m with
+        | some (.ex e) => .ex e
+        | _ => .ty (inst ρ (.tparam m)))
     | .ty t => (p.1, .ty (inst ρ t))
     | .ex e => (p.1, .ex (inst ρ e))
     | .identity => (p.1, match lookup ρ p.1 with | some w => w | none => .identity))
+
+/-! ### Kinds of parameter occurrences (executable side conditions of the refinement) -/
+
+mutual
+/-- the member's substitution respects the kinds of the occurrences in `t`: a parameter in type position is not
+    bound to an expression, a parameter in expression position is not bound to a type (the generic-argument
+    position `GenericArgument::Type [tparam n]` accepts both); no expression parameter as a type argument -/
+def kindOK (θ : Subst) : T → Bool
+  | .tparam n => nonEx θ n
+  | .eparam n => (match lookup θ n with | some (.ty _) => false | _ => true)
+  | .node k as ks =>
+      match k, as, ks with
+      | "GenericArgument::Type", [], [.tparam _] => true
+      | "GenericArgument::Type", [], [.eparam _] => false
+      | _, _, _ => kindOKL θ ks
+def kindOKL (θ : Subst) : List T → Bool
+  | [] => true
+  | t :: ts => kindOK θ t && kindOKL θ ts
+end
+
+mutual
+/-- parameters in type position (bare `tparam`) -/
+def bareOcc : T → List String
+  | .tparam n => [n]
+  | .eparam _ => []
+  | .node k as ks =>
+      match k, as, ks with
+      | "GenericArgument::Type", [], [.tparam _] => []
+      | _, _, _ => bareOccL ks
+def bareOccL : List T → List String
+  | [] => []
+  | t :: ts => bareOcc t ++ bareOccL ts
+end
+
+mutual
+/-- parameters in expression position (`eparam`) -/
+def exOcc : T → List String
+  | .tparam _ => []
+  | .eparam n => [n]
+  | .node k as ks =>
+      match k, as, ks with
+      | "GenericArgument::Type", [], [.tparam _] => []
+      | _, _, _ => exOccL ks
+def exOccL : List T → List String
+  | [] => []
+  | t :: ts => exOcc t ++ exOccL ts
+end
+
+mutual
+/-- parameters in the ambiguous generic-argument position -/
+def gaOcc : T → List String
+  | .tparam _ => []
+  | .eparam _ => []
+  | .node k as ks =>
+      match k, as, ks with
+      | "GenericArgument::Type", [], [.tparam n] => [n]
+      | _, _, _ => gaOccL ks
+def gaOccL : List T → List String
+  | [] => []
+  | t :: ts => gaOcc t ++ gaOccL ts
+end
+
+/-- every parameter occurrence of `u` has a counterpart in `h` that determines its value: a type position one in
+    type or generic-argument position, an expression position one in expression or generic-argument position, a
+    generic-argument position one in generic-argument or type position -/
+def occSub (u h : T) : Bool :=
+  (bareOcc u).all (fun n => (bareOcc h).contains n || (gaOcc h).contains n) &&
+  (exOcc u).all (fun n => (exOcc h).contains n || (gaOcc h).contains n) &&
+  (gaOcc u).all (fun n => (gaOcc h).contains n || (bareOcc h).contains n)
+
+def boundAll (σ : Subst) (t : T) : Bool := (allParams t).all (fun n => (lookup σ n).isSome)
+
+/-- decidable `ThetaCovers` (Lemmas/Refine.lean): the member's substitution binds every parameter of the family's
+    header and keys and respects the kinds of their occurrences -/
+def thetaCoversB (F : Family) (m : Member) : Bool :=
+  kindOK m.θ F.hdr && boundAll m.θ F.hdr &&
+  F.keys.all (fun k => kindOK m.θ k.bounded && kindOK m.θ k.tr && boundAll m.θ k.bounded && boundAll m.θ k.tr)
+
+/-- decidable `KeysOverHeader` (Lemmas/Refine.lean): every parameter occurrence of a key has a counterpart in the
+    header that determines its value -/
+def keysOverHeaderB (F : Family) : Bool :=
+  F.keys.all (fun k => occSub k.bounded F.hdr && occSub k.tr F.hdr)
 
 end DI
